@@ -460,6 +460,17 @@ def run(spec, ctx):
         ctx.run_case(spec["replay_case"], lambda c: run_case(c, ctx))
         return
     g = G.Gen(spec["seed"] * 1000003 + spec["part"] * 7919 + 2)
+    if spec["part"] == 0:
+        # fixed cases for the carrier rider: every single power fits an 8 / 16 bit type, the
+        # product across the arguments does not
+        for names, values in ((["q0", "q1"], [20, 20]), (["q0", "q1"], [12, 12]),
+                              (["q1", "q2"], [100, 3]), (["q0", "q1", "q2"], [15, 15, 2])):
+            poly = {"k": "poly", "names": names, "exps": [[1] * len(names), [0] * len(names)],
+                    "coefs": [3, 1], "kind": "int", "shape": [], "via": "attrs"}
+            for spelling in ("call", "numpoly.call"):
+                case = {"poly": poly, "args": [{"k": "py", "v": v} for v in values], "kwargs": {},
+                        "labels": ["pos:pyint"] * len(names), "error": None, "spelling": spelling}
+                ctx.run_case(case, lambda c: run_case(c, ctx))
     for i in range(spec["n"]):
         case = gen_case(g)
         if i < 2 and spec["part"] == 0:
